@@ -68,6 +68,10 @@ struct Inner {
     locks: BTreeSet<PathBuf>,
     /// remaining successful `write` calls before every write fails (None = unlimited)
     write_budget: Option<u64>,
+    /// contents this filesystem started with (crash images / snapshots); `image_at` replays the
+    /// operation log on top of it
+    base_files: BTreeMap<PathBuf, Vec<u8>>,
+    base_dirs: BTreeSet<PathBuf>,
 }
 
 #[derive(Clone)]
@@ -166,9 +170,20 @@ impl SimFs {
         let ops = self.oplog();
         let img = SimFs::new();
         {
+            let (base_files, base_dirs) = {
+                let me = self.inner.lock();
+                (me.base_files.clone(), me.base_dirs.clone())
+            };
             let mut g = img.inner.lock();
             g.recording = false;
             let mut inodes: BTreeMap<u64, Inode> = BTreeMap::new();
+            for d in base_dirs {
+                g.dirs.insert(d);
+            }
+            for (k, (p, c)) in base_files.into_iter().enumerate() {
+                let ino = u64::MAX - k as u64;
+                g.files.insert(p, (ino, Arc::new(Mutex::new(c))));
+            }
             let apply = |g: &mut Inner, inodes: &mut BTreeMap<u64, Inode>, op: &Op, cut: Option<usize>| match op {
                 Op::Mkdir(p) => {
                     g.dirs.insert(p.clone());
@@ -251,6 +266,8 @@ impl SimFs {
                 g.inode_paths.insert(i as u64, p);
             }
             g.next_inode = g.files.len() as u64;
+            g.base_files = g.files.iter().map(|(p, (_, n))| (p.clone(), n.lock().clone())).collect();
+            g.base_dirs = g.dirs.clone();
             g.recording = true;
         }
         img
@@ -269,6 +286,8 @@ impl SimFs {
                 h.inode_paths.insert(i as u64, p.clone());
             }
             h.next_inode = h.files.len() as u64;
+            h.base_files = h.files.iter().map(|(p, (_, n))| (p.clone(), n.lock().clone())).collect();
+            h.base_dirs = h.dirs.clone();
         }
         let _ = n;
         img
